@@ -17,8 +17,8 @@ ACTIONS = ["retrieve", "create", "delete", "update", "x"]
 NROLES, NPOLS = 3, 4
 
 RULE = ("histories of 8-30 ops over 1-3 subjects (user:u1, u2, u10, u1x; some never defined), 1-3 roles, 1-4 policies "
-        "(1-3 objects each, type-level (key '') and instance-level, over types channel/chan/rack/range and the zero "
-        "id; 1-3 actions): create/delete role and policy (also delete-then-recreate with the same key), SetOnRole, "
+        "(0-3 objects each — none = absent (nil) or empty field —, type-level (key '') and instance-level, over types channel/chan/rack/range and the zero "
+        "id; 0-3 actions): create/delete role and policy (also delete-then-recreate with the same key), SetOnRole, "
         "Assign/Unassign, define/delete subject, making the Users group a parent of subjects / policies (non-role "
         "parents must grant nothing), begin/commit/abort, object lists re-checked through one reused slice (other subjects, before/after assign/unassign; a list "
         "rewritten by Enforce is reported), refused deletes of internal roles followed by a check, one-transaction role replacement (unassign then re-assign the same role, checked on the "
@@ -47,10 +47,11 @@ def mkid(tk):
 
 
 def gen_policy(rng, k):
-    objs = [mkid(rng.choice(OBJECTS)) for _ in range(rng.choice([1, 1, 2, 2, 3]))]
-    acts = rng.sample(ACTIONS, rng.choice([1, 1, 2, 3]))
+    # policies without objects and / or without actions (field absent = nil, or present but empty) cover nothing
+    objs = [mkid(rng.choice(OBJECTS)) for _ in range(rng.choice([0, 1, 1, 1, 2, 2, 3]))]
+    acts = rng.sample(ACTIONS, rng.choice([0, 1, 1, 1, 2, 3]))
     return {"op": "policy", "k": k, "objs": objs, "acts": acts, "internal": rng.random() < 0.08,
-            "allow": rng.random() < 0.9}
+            "allow": rng.random() < 0.9, "objs_empty": rng.random() < 0.4, "acts_empty": rng.random() < 0.4}
 
 
 def gen_enforce(rng, subs, pols, in_tx):
@@ -58,16 +59,18 @@ def gen_enforce(rng, subs, pols, in_tx):
     objs = []
     for _ in range(rng.choice([0, 1, 1, 1, 2, 2, 3])):
         x = rng.random()
-        if pols and x < 0.6:
-            po = rng.choice(rng.choice(pols)["objs"])
+        withobjs = [p for p in pols if p["objs"]]
+        if withobjs and x < 0.6:
+            po = rng.choice(rng.choice(withobjs)["objs"])
             if po["k"] == "" and rng.random() < 0.7:
                 objs.append({"t": po["t"], "k": rng.choice(["1", "10", "zz"])})
             else:
                 objs.append(dict(po))
         else:
             objs.append(mkid(rng.choice(OBJECTS)))
-    if pols and rng.random() < 0.75:
-        act = rng.choice(rng.choice(pols)["acts"])
+    withacts = [p for p in pols if p["acts"]]
+    if withacts and rng.random() < 0.75:
+        act = rng.choice(rng.choice(withacts)["acts"])
     else:
         act = rng.choice(ACTIONS)
     return {"op": "enforce", "s": mkid(s), "act": act, "objs": objs,
@@ -129,11 +132,31 @@ def gen_case(rng):
             e = gen_enforce(rng, subs, pols, False)
             e["s"] = s
             ops.append(e)
+    if rng.random() < 0.25:
+        # one role carrying a populated policy next to policies whose Objects or Actions are absent, in both key
+        # orders (policies are loaded in key order): no single policy grants the second action on the object
+        s, r = mkid(rng.choice(subs)), rng.randrange(1, nr + 1)
+        ka, kb, kc = rng.sample(range(1, 6), 3)
+        t = rng.choice(["channel", "rack", "chan"])
+        a1, a2 = rng.sample(ACTIONS, 2)
+        full = {"op": "policy", "k": ka, "objs": [mkid((t, rng.choice(["", "1"])))], "acts": [a1],
+                "internal": False, "allow": True}
+        noobj = {"op": "policy", "k": kb, "objs": [], "acts": [a2], "internal": False, "allow": True,
+                 "objs_empty": rng.random() < 0.3}
+        noact = {"op": "policy", "k": kc, "objs": [mkid((t, ""))], "acts": [], "internal": False, "allow": True,
+                 "acts_empty": rng.random() < 0.3}
+        chosen = [full] + rng.sample([noobj, noact], rng.choice([1, 2]))
+        rng.shuffle(chosen)
+        pols += [c for c in chosen if c["objs"] and c["acts"]]
+        ops += chosen + [{"op": "role", "k": r, "internal": False, "allow": True},
+                         {"op": "seton", "r": r, "ks": [c["k"] for c in chosen]}, {"op": "assign", "s": s, "r": r}]
+        for act in (a2, a1, rng.choice(ACTIONS)):
+            ops.append({"op": "enforce", "s": s, "act": act, "objs": [mkid((t, "1"))], "committed": False})
     if rng.random() < 0.3 and pols:
         # one object list (a covered object first, an uncovered one behind it, ...) checked several times through
         # the SAME slice: for different subjects and before / after an assign or unassign
         base = gen_enforce(rng, subs, pols, in_tx)
-        po = rng.choice(rng.choice(pols)["objs"])
+        po = rng.choice(rng.choice([p for p in pols if p["objs"]] or [{"objs": [mkid(("channel", "1"))]}])["objs"])
         cov = {"t": po["t"], "k": po["k"] or "1"}
         base["objs"] = [cov] + [mkid(rng.choice(OBJECTS)) for _ in range(rng.choice([1, 1, 2]))]
         if rng.random() < 0.3:
